@@ -293,6 +293,7 @@ type GenOpts struct {
 	UncoveredUnion bool // allow union members without any applicable fragment (separate sub-generator)
 	NoDupUnionFrag bool // at most one fragment per union member (exclusion of a known finding)
 	NoUnionTypename bool // no bare __typename under a union together with shared named fragments
+	UnionTypenameAlways bool // always select __typename under unions (federation gateway injects it)
 }
 
 // Features records which interesting shapes a generated query contains.
@@ -609,7 +610,7 @@ func (g *qgen) genUnionSels(u string, depth int) []Sel {
 	g.feat.UnionFields++
 	members := UnionMembers[u]
 	var sels []Sel
-	if g.o.Directives || (!g.o.NoUnionTypename && rapid.IntRange(0, 2).Draw(g.t, "utypename") == 0) {
+	if g.o.Directives || g.o.UnionTypenameAlways || (!g.o.NoUnionTypename && rapid.IntRange(0, 2).Draw(g.t, "utypename") == 0) {
 		sels = append(sels, Sel{Kind: "field", Name: "__typename"})
 		g.feat.UnionTypename++
 	}
